@@ -31,7 +31,7 @@ USERS = ('ua', 'ub', 'uc')
 PATHS = ('f/a.mp3', 'f/b.mp3')
 DIRS = ('d/a', 'd/b')
 WRONG_TICKET = 7999
-N_RANDOM = {'quick': 2860, 'thorough': 640640}     # per 13: 3 suspended-handler, 2 call-race, 8 general
+N_RANDOM = {'quick': 3740, 'thorough': 640560}     # per 17: 8 general, 3 suspended-handler, 2 call-race, 2 busy-loop, 2 link-loss
 
 RULE = (
     "One case = one history on one simulated world (client 'me' + scripted server + peers p1,p2 with established P "
@@ -302,7 +302,7 @@ def arrivals(hist: dict) -> list[int]:
     order = sorted(range(len(hist['segments'])), key=lambda j: (hist['segments'][j]['t'], hist['segments'][j].get('o', 1), j))
     for j in order:
         s = hist['segments'][j]
-        a = max(last.get(s['link'], -1), s['t']) + hist['lat'][s['link']]
+        a = max(last.get(s['link'], -1), s['t']) + hist['lat'][s['link'].split('#')[0]]
         last[s['link']] = a
         out[j] = a
     return out
@@ -318,7 +318,7 @@ def plan_accepts(hist: dict, ri: int, seg_j: int, m: dict, arr: list) -> bool:
             return 100 + m.get('uid', 0)
         v = m['f'].get(name, _MISSING)
         if name == 'ticket' and isinstance(v, dict):
-            ok = v['req'] == ri and s['t'] >= r['s'] + hist['lat'][s['link']]
+            ok = v['req'] == ri and s['t'] >= r['s'] + hist['lat'][s['link'].split('#')[0]]
             return {'own': True} if ok else WRONG_TICKET
         return v
     return why_rejected(r, r['m'], s['link'], m['c'], fields) is None
@@ -374,10 +374,11 @@ def systematic() -> list[dict]:
     out = []
     lat = {'server': 2, 'p1': 2, 'p2': 2}
 
-    def add(reqs, segs, note, lat_=None, listener=None):
+    def add(reqs, segs, note, lat_=None, listener=None, **more):
         h = {'lat': dict(lat_ or lat), 'requests': _copy(reqs), 'segments': _copy(segs), 'note': note}
         if listener:
             h['listener'] = dict(listener)
+        h.update(_copy(more))
         number_messages(h)
         out.append(h)
 
@@ -527,6 +528,44 @@ def systematic() -> list[dict]:
             sg = SEG(link, 1, m)
             sg['y'] = 0
             add([r], [sg], f'zero latency: reply written {yr} zero-time yields before the call was started', zero)
+
+    # -- the loop is busy across [arrival, deadline] (w.loop.stall) --------------------------------------------------
+    for r, m, link in templates:
+        if r['k'] == 'execute:PeerGetDirectoryContentCommand':
+            continue
+        place = r['k'] == 'request_place_in_queue'
+        tt = PLACE_TICKS if place else 8
+        # arrival one tick before the deadline; the delivery callback itself takes 20/1024 s (> 1 tick)
+        ra = _copy(r)
+        ra['end'] = T(tt)
+        add([ra], [SEG(link, tt - 3, m)], 'slow delivery callback: reply processed first, overdue timeout right behind it',
+            stalls=[{'seg': 0, 'hops': 0, 'n1024': 20}])
+        # a harness callback one tick before the arrival takes 40/1024 s: arrival (D-1) and deadline inside the stall
+        add([ra], [SEG(link, tt - 3, m)], 'busy loop across arrival (deadline - 1 tick) and deadline',
+            stalls=[{'t': tt - 2, 'n1024': 40}])
+        # the same with the arrival one tick after the deadline
+        add([ra], [SEG(link, tt - 1, m)], 'busy loop across deadline and arrival (deadline + 1 tick)',
+            stalls=[{'t': tt - 1, 'n1024': 40}])
+
+    # -- the peer's P link goes away while requests to that peer are pending ----------------------------------------
+    peer_templates = [(r, m) for r, m, link in templates if link == 'p1' and r['src'] in ('p1',)]
+    for r, m in peer_templates:
+        place = r['k'] == 'request_place_in_queue'
+        pgdc = r['k'] == 'execute:PeerGetDirectoryContentCommand'
+        rr = _copy(r)
+        rr['end'] = T(PLACE_TICKS if place else 24)
+        for mode in ('eof', 'rst', 'local'):
+            add([rr], [], f'only P link of the peer closed ({mode}) while pending, no reply: timeout at the deadline',
+                closes=[{'link': 'p1', 't': 6, 'mode': mode}])
+        add([rr], [SEG('p1#r', 14, m)], 'only P link closed (eof), the peer connects again and replies in time',
+            closes=[{'link': 'p1', 't': 6, 'mode': 'eof'}], dials=[{'link': 'p1#r', 't': 9}])
+        add([rr], [SEG('p1#2', 12, m)], 'one of two P links closed (rst), reply over the other one',
+            closes=[{'link': 'p1', 't': 6, 'mode': 'rst'}], extra_links=['p1#2'])
+        if not pgdc:
+            add([rr], [SEG('p1#r', 14, m)], 'both P links closed one after the other (the second is the last established), '
+                'the peer connects again and replies in time',
+                closes=[{'link': 'p1#2', 't': 5, 'mode': 'eof'}, {'link': 'p1', 't': 7, 'mode': 'eof'}],
+                dials=[{'link': 'p1#r', 't': 10}], extra_links=['p1#2'])
     return out
 
 
@@ -744,13 +783,124 @@ def gen_callrace(rng: random.Random) -> dict:
     return hist
 
 
+def _any_request(rng: random.Random, ri: int, peer_only: Optional[str] = None) -> tuple[dict, dict, str]:
+    """(request without end, a message answering it, link) over all request kinds."""
+    for _ in range(50):
+        r = _gen_request(rng, ri, ['S1', 'P1'])
+        if r['k'] == 'register_response_future' and ((r['cc'] == 'server') != (CLASSES[r['c']][0] == 'server')):
+            continue                                   # the mismatch variants can never be answered
+        if peer_only and r['src'] != peer_only:
+            continue
+        break
+    else:
+        r = R('create_peer_response_future', 'P1', peer_only or 'p1', [], 0, {})
+    m = {'c': r['c'], 'f': _field_values(rng, r['c'], r, ri, None)}
+    link = 'server' if r['src'] == 'server' else (r['src'] if r['src'] in ('p1', 'p2') else rng.choice(('p1', 'p2')))
+    return r, m, link
+
+
+def gen_stall(rng: random.Random) -> dict:
+    """The loop is busy (w.loop.stall) across the arrival of the reply and/or the deadline of the request, the reply
+    arriving one tick before / at / one tick after the deadline; from the delivery callback (+ hops) or from a harness
+    timer shortly before."""
+    lat = {'server': rng.choice((2, 4)), 'p1': rng.choice((2, 3)), 'p2': rng.choice((2, 4))}
+    r, m, link = _any_request(rng, 0)
+    r['s'] = rng.choice((0, 1))
+    place = r['k'] == 'request_place_in_queue'
+    tt = PLACE_TICKS if place else rng.choice((6, 8, 12))
+    r['end'] = T(tt)
+    dl = r['s'] + tt
+    delta = rng.choice((-1, -1, -1, 0, 1, 1))
+    a = dl + delta
+    hist: dict = {'lat': lat, 'requests': [r], 'segments': [{'link': link, 't': a - lat[link], 'msgs': [m], 'o': 1}],
+                  'family': 'stall'}
+    if r['k'] == 'execute:PeerGetDirectoryContentCommand':
+        m['f']['ticket'] = {'req': 0}
+    if rng.random() < 0.55:
+        hist['stalls'] = [{'seg': 0, 'hops': rng.choice((0, 0, 0, 1, 2)), 'n1024': rng.choice((4, 12, 16, 20, 20, 32))}]
+    else:
+        hist['stalls'] = [{'t': min(a, dl) - rng.choice((0, 1, 1)), 'n1024': rng.choice((12, 20, 32, 40, 40, 48))}]
+    if rng.random() < 0.35:                      # a second waiter for the same reply with a later deadline
+        w2 = _copy(r)
+        if w2['k'] == 'execute:PeerGetDirectoryContentCommand':
+            w2 = R('create_peer_response_future', 'P3', r['src'], [['directory', 'eq', r['arg']['directory']]], 0, {})
+        w2['end'] = T(tt + rng.choice((2, 8))) if w2['k'] != 'request_place_in_queue' else T(PLACE_TICKS)
+        w2['o'] = rng.choice((0, 2))
+        hist['requests'].append(w2)
+    if rng.random() < 0.3:                       # the reply once more, later
+        hist['segments'].append({'link': link, 't': a - lat[link] + rng.choice((2, 4)), 'msgs': [_copy(m)], 'o': 1})
+    number_messages(hist)
+    return hist
+
+
+def gen_linkloss(rng: random.Random) -> dict:
+    """Requests to a peer are pending while that peer's P link is closed (EOF / RST from the peer, or disconnected by
+    the client), with or without a second P link, with or without the peer connecting again and replying."""
+    lat = {'server': 2, 'p1': rng.choice((2, 3)), 'p2': rng.choice((2, 3))}
+    pn = rng.choice(('p1', 'p2'))
+    extra = rng.random() < 0.45
+    n = rng.choice((1, 2, 2, 3))
+    reqs, msgs = [], []
+    for ri in range(n):
+        r, m, link = _any_request(rng, ri, peer_only=pn if (ri == 0 or rng.random() < 0.75) else None)
+        r['s'] = rng.choice((0, 0, 1))
+        r['o'] = ri
+        place = r['k'] == 'request_place_in_queue'
+        r['end'] = T(PLACE_TICKS if place else rng.choice((16, 20, 28)))
+        reqs.append(r)
+        msgs.append((m, link))
+    tc = rng.choice((5, 6, 7))
+    mode = rng.choice(('eof', 'eof', 'rst', 'local'))
+    hist: dict = {'lat': lat, 'requests': reqs, 'segments': [], 'family': 'linkloss',
+                  'closes': [{'link': pn, 't': tc, 'mode': mode, 'o': rng.choice((0, 2))}]}
+    live_after = []
+    if extra:
+        hist['extra_links'] = [pn + '#2']
+        if rng.random() < 0.4:                   # the second one goes too: now the last established one is gone
+            t2 = tc + rng.choice((-2, 2))
+            hist['closes'].append({'link': pn + '#2', 't': t2, 'mode': rng.choice(('eof', 'rst')), 'o': 1})
+        else:
+            live_after.append((pn + '#2', 0))
+    if rng.random() < 0.55:
+        tr = max(c['t'] for c in hist['closes']) + rng.choice((1, 3, 6))
+        hist['dials'] = [{'link': pn + '#r', 't': tr}]
+        live_after.append((pn + '#r', tr + 1 + lat[pn] + 1))
+    t_last_close = max(c['t'] for c in hist['closes'])
+    t_first_close = min(c['t'] for c in hist['closes'])
+    for ri, ((m, link), r) in enumerate(zip(msgs, reqs)):
+        if r['k'] == 'execute:PeerGetDirectoryContentCommand':
+            m['f']['ticket'] = {'req': ri}
+        how = rng.choice(('after', 'after', 'after', 'before', 'none', 'late'))
+        if link != pn:
+            hist['segments'].append({'link': link, 't': rng.randrange(2, 14), 'msgs': [m], 'o': 1})
+            continue
+        if how == 'before':
+            hist['segments'].append({'link': pn, 't': max(r['s'], t_first_close - rng.choice((1, 2, 3))), 'msgs': [m], 'o': 0})
+        elif how in ('after', 'late') and live_after:
+            lk, tmin = rng.choice(live_after)
+            t = max(tmin, t_last_close + 1) + rng.choice((0, 1, 3))
+            if how == 'late' and r['k'] != 'request_place_in_queue':
+                t = max(t, r['s'] + r['end']['ticks'] + rng.choice((0, 1, 2)))
+            hist['segments'].append({'link': lk, 't': t, 'msgs': [m], 'o': 1})
+    if rng.random() < 0.3:
+        c2 = rng.choice(('S1', 'S4'))
+        hist['segments'].append({'link': 'server', 't': rng.randrange(0, 12),
+                                 'msgs': [{'c': c2, 'f': _field_values(rng, c2, None, -1, None)}], 'o': 0})
+    number_messages(hist)
+    return hist
+
+
 def gen_history(seed: int, idx: int) -> dict:
     rng = random.Random(f'{seed}:{ID}:{idx}')
-    fam = idx % 13
+    fam = idx % 17
     if fam in (0, 1, 2):
         return gen_suspended(rng)
     if fam in (3, 4):
         return gen_callrace(rng)
+    if fam in (5, 6):
+        return gen_stall(rng)
+    if fam in (7, 8):
+        return gen_linkloss(rng)
     lat = {'server': rng.choice((2, 2, 4, 8)), 'p1': rng.choice((2, 2, 3, 8)), 'p2': rng.choice((2, 4, 8))}
     nreq = rng.choice((1, 2, 2, 3, 3, 4, 4))
     focus = rng.sample(['S1', 'S1', 'S3', 'S4', 'P1', 'P1', 'P2', 'P3'], 2)
@@ -883,7 +1033,7 @@ def expand(params: dict) -> dict:
 # --------------------------------------------------------------------------
 # the reference model: one request against the observed event sequence
 
-def judge(r: dict, matchers: list, rec: dict, events: list) -> dict:
+def judge(r: dict, matchers: list, rec: dict, events: list, stalls=()) -> dict:
     """Allowed outcomes of one request.
 
     events: [{'t','seq','t_done','seq_done','src','ckey','msg'}]: 't'/'seq' = instant / order number at which the
@@ -898,6 +1048,9 @@ def judge(r: dict, matchers: list, rec: dict, events: list) -> dict:
     * registered and alive  => the message MUST complete the request (if an earlier one has not).
     * physically impossible (call started after e.seq_done, or ended before e.t) => must not.
     * anything else => may (both outcomes accepted).
+    * stalls [(a, b)]: the loop was busy from a to b (w.loop.stall): an end instant inside [a, b] takes effect at b
+      at the earliest, together with everything else that came due meanwhile => it is moved to b before comparing
+      (a message seen at b and an end that came due during the stall are then 'may').
     """
     t0, q0 = rec['t_call'], rec['seq_call']
     end = r['end']
@@ -910,6 +1063,10 @@ def judge(r: dict, matchers: list, rec: dict, events: list) -> dict:
     t_end = deadline if deadline is not None else float('inf')
     if end['type'] == 'C' and rec.get('t_cancel') is not None:
         t_end = min(t_end, rec['t_cancel'])
+    t_end_due = t_end
+    for a, b in stalls:
+        if a <= t_end <= b:
+            t_end = b
     matching = []
     for i, e in enumerate(events):
         msg = e['msg']
@@ -935,7 +1092,8 @@ def judge(r: dict, matchers: list, rec: dict, events: list) -> dict:
         if status[i] == 'may':
             allowed.append(i)
     registered_at = {i: (q0 < events[i]['seq'] and (not place or events[i]['t'] > t0)) for i in matching}
-    return {'t_end': t_end, 'deadline': deadline, 'matching': matching, 'status': status, 'allowed_values': allowed,
+    return {'t_end': t_end, 't_end_due': t_end_due, 'deadline': deadline, 'matching': matching, 'status': status,
+            'allowed_values': allowed,
             'end_allowed': first_must is None, 'first_definite': first_must, 'registered_at': registered_at,
             'same_instant': any(v == 'may' for v in status.values())}
 
@@ -951,7 +1109,7 @@ def run_case(params: dict) -> dict:
     import async_timeout
     from aioslsk import commands as CMD
     from aioslsk.events import MessageReceivedEvent
-    from aioslsk.network.connection import PeerConnection, PeerConnectionState, ServerConnection
+    from aioslsk.network.connection import CloseReason, PeerConnection, PeerConnectionState, ServerConnection
     from aioslsk.network.network import ExpectedResponse
     from aioslsk.protocol import messages as M
     from aioslsk.transfer.model import Transfer, TransferDirection
@@ -989,20 +1147,29 @@ def run_case(params: dict) -> dict:
         h = await w.add_client('me')
         client = h.client
         net = client.network
+        w.net.rst_latency = w.net.fin_latency = TICK     # RST / FIN travel on the grid too
         peers, links = {}, {}
+        addr_src: dict = {}
+        closed_links: dict[str, str] = {}
+
+        async def dial_link(name: str):
+            lk = await peers[name.split('#')[0]].dial(h.port, 'P', host=w.net.ip_of('me'))
+            links[name] = lk
+            addr_src[tuple(lk.writer.get_extra_info('sockname'))] = name
+            return lk
+
         for name in ('p1', 'p2'):
             peers[name] = await w.add_peer(name)
-            links[name] = await peers[name].dial(h.port, 'P', host=w.net.ip_of('me'))
+            await dial_link(name)
+        for name in hist.get('extra_links') or []:
+            await dial_link(name)
         for _ in range(40):                        # the client tracks itself after login: wait for that reply
             await settle(0.5)
             if not net._expected_response_futures:
                 break
         est = [c for c in net.peer_connections if c.connection_state == PeerConnectionState.ESTABLISHED]
-        if len(est) != 2:
+        if len(est) != len(links):
             raise RuntimeError(f'setup: {len(est)} established peer links')
-        addr_src = {}
-        for name, link in links.items():
-            addr_src[tuple(link.writer.get_extra_info('sockname'))] = name
         session = w.server.by_user['me']
         if net._expected_response_futures:
             raise RuntimeError('setup left expected responses')
@@ -1043,7 +1210,8 @@ def run_case(params: dict) -> dict:
 
         def on_msg(ev):                       # first listener (priority 0): the message is seen
             e = {
-                't': tick_now(), 'seq': next_seq(), 'src': source_of(ev.connection),
+                't': tick_now(), 'seq': next_seq(), 'link': source_of(ev.connection),
+                'src': source_of(ev.connection).split('#')[0],
                 'ckey': key_of_cls.get(type(ev.message)), 'msg': ev.message, 'conn': ev.connection,
                 'log_mark': len(w.log.records), 't_done': None, 'seq_done': None, 'log_mark_done': None,
                 'stale_done': 0, 'stale_cancelled': 0, 'listed': 0,
@@ -1198,6 +1366,8 @@ def run_case(params: dict) -> dict:
                 return
             j, _ = q.popleft()
             seg_info[j]['arrival'] = tick_now()
+            for st in seg_stalls.get(j, ()):
+                stall_hop(st.get('hops', 0), st)
             for i, order in hook_cancels.get(j, ()):
                 hops = HOPS[order] if order in HOPS else int(order)
                 if hops == 0:
@@ -1214,10 +1384,14 @@ def run_case(params: dict) -> dict:
                     for _, lk, fm in peers[r['arg']['peer']].all_frames:
                         if isinstance(fm, M.PeerDirectoryContentsRequest.Request) and fm.directory == r['arg']['directory']:
                             tickets[ri] = fm.ticket
+            if link != 'server' and (link not in links or link in closed_links):
+                seg_info[j]['skipped'] = True          # generator/harness: never counts against the library
+                shared.setdefault('skipped_segments', []).append(j)
+                return
             data = b''
             for m in s['msgs']:
                 obj = build_message(m, m['uid'], tickets)
-                sent[link].append((m['uid'], obj))
+                sent.setdefault(link, []).append((m['uid'], obj))
                 data += obj.serialize()
             if link == 'server':
                 tr = session.writer.transport
@@ -1236,7 +1410,49 @@ def run_case(params: dict) -> dict:
                 actions.append((max(r['end']['tick'], r['s'] + 1), r['end'].get('y', 0), 3, 1, 'cancel', i))
         for j, s in enumerate(segs):
             actions.append((s['t'], s.get('y', 0), s.get('o', 1), 2, 'seg', j))
+        for x, cl in enumerate(hist.get('closes') or []):
+            actions.append((cl['t'], cl.get('y', 0), cl.get('o', 1), 4, 'close', x))
+        for x, dl in enumerate(hist.get('dials') or []):
+            actions.append((dl['t'], 0, 1, 5, 'dial', x))
         actions.sort(key=lambda a: (a[0], a[1], a[2], a[3], a[5]))
+
+        def do_close(cl: dict):
+            name = cl['link']
+            if name not in links or name in closed_links:
+                return
+            closed_links[name] = cl['mode']
+            shared.setdefault('closes_done', []).append({'link': name, 'mode': cl['mode'], 't': tick_now(), 'seq': next_seq()})
+            if cl['mode'] == 'eof':
+                links[name].close()
+            elif cl['mode'] == 'rst':
+                links[name].abort()
+            else:                                      # the client itself disconnects the connection
+                addr = tuple(links[name].writer.get_extra_info('sockname'))
+                for c in list(net.peer_connections):
+                    if (c.hostname, c.port) == addr:
+                        w.spawn('me', c.disconnect(CloseReason.REQUESTED), name='c12-local-disconnect')
+
+        # stalls: the running callback 'takes' d seconds (w.loop.stall): from the delivery callback of a segment
+        # (+ hops loop iterations) or from a harness timer
+        stall_log: list = []
+
+        def do_stall(st: dict):
+            a = tick_now()
+            loop.stall(st['n1024'] / 1024.0)
+            stall_log.append((a, tick_now()))
+
+        def stall_hop(n: int, st: dict):
+            if n <= 0:
+                do_stall(st)
+            else:
+                loop.call_soon(stall_hop, n - 1, st)
+        seg_stalls: dict[int, list] = collections.defaultdict(list)
+        for st in hist.get('stalls') or []:
+            if 'seg' in st:
+                seg_stalls[st['seg']].append(st)
+            else:
+                loop.call_at(base + st['t'] * TICK, do_stall, st)
+        shared['stall_log'] = stall_log
         pos = 0
         while pos < len(actions):
             tick = actions[pos][0]
@@ -1251,6 +1467,10 @@ def run_case(params: dict) -> dict:
                     recs[x]['task'] = w.spawn('me', run_request(x), name=f'c12-req-{x}')
                 elif what == 'seg':
                     send_segment(x)
+                elif what == 'close':
+                    do_close(hist['closes'][x])
+                elif what == 'dial':
+                    loop.create_task(dial_link(hist['dials'][x]['link']), name='c12-dial')
                 else:
                     do_cancel(x)
                 pos += 1
@@ -1300,11 +1520,19 @@ def run_case(params: dict) -> dict:
             ('p2', net.create_peer_response_future('p2', M.PeerPlaceInQueueReply.Request, {'filename': 'fresh/2'}),
              M.PeerPlaceInQueueReply.Request('fresh/2', 9002)),
         ]
+        fresh_link = {}
+        for pn in ('p1', 'p2'):
+            live = [n for n in links if n.split('#')[0] == pn and n not in closed_links]
+            if not live:
+                await dial_link(pn + '#f')
+                live = [pn + '#f']
+            fresh_link[pn] = live[-1]
+        await settle((max(hist['lat'].values()) + 2) * TICK)
         for link, fut, msg in fresh:
             if link == 'server':
                 session.writer.write(msg.serialize())
             else:
-                links[link].send_raw(msg.serialize())
+                links[fresh_link[link]].send_raw(msg.serialize())
         await settle((max(hist['lat'].values()) + 2) * TICK)
         later = []
         for link, fut, msg in fresh:
@@ -1317,6 +1545,7 @@ def run_case(params: dict) -> dict:
         shared['later'] = later
         shared['residue_after'] = len(net._expected_response_futures)
         shared['dead_tasks'] = h.dead_background_tasks()
+        shared['closed_links'] = dict(closed_links)
         await w.stop_clients()
         return True
 
@@ -1336,28 +1565,35 @@ def run_case(params: dict) -> dict:
     # harness consistency: every frame sent in the history was observed, per link in order, as the same message
     per_link = {k: list(v) for k, v in sent.items()}
     for e in hevents:
-        q = per_link.get(e['src'])
+        q = per_link.get(e['link'])
         if e['ckey'] is None:                      # not one of the scripted classes: cannot answer any request
             e['uid'] = None
             runner.add_obs(res, 'unscripted_messages')
             continue
         if not q or q[0][1] != e['msg']:
-            res['inconclusive'] = f"event/frame association broken at {e['src']} {e['msg']!r}"
+            res['inconclusive'] = f"event/frame association broken at {e['link']} {e['msg']!r}"
             return res
         e['uid'] = q.pop(0)[0]
-    undelivered = {k: [u for u, _ in v] for k, v in per_link.items() if v}
+    # frames in flight on a link that was reset / disconnected by the client are legitimately lost
+    undelivered = {k: [u for u, _ in v] for k, v in per_link.items()
+                   if v and shared['closed_links'].get(k) not in ('rst', 'local')}
+    if shared.get('skipped_segments'):
+        res['inconclusive'] = f"segments {shared['skipped_segments']} had no open link (generator)"
+        return res
     runner.add_obs(res, 'messages_delivered', len(hevents))
 
     def ev_brief(i: int) -> dict:
         e = hevents[i]
         return {'event': i, 't': e['t'], 'seq': e['seq'], 't_handlers_done': e['t_done'], 'seq_handlers_done': e['seq_done'],
-                'from': e['src'], 'uid': e['uid'], 'message': repr(e['msg'])[:140]}
+                'from': e['link'], 'uid': e['uid'], 'message': repr(e['msg'])[:140]}
 
     def witness(**extra) -> dict:
         d = {'history': {'lat_ticks': hist['lat'], 'requests': reqs, 'segments': segs, 'note': hist.get('note')},
              'tick_s': TICK,
              'events': [ev_brief(i) for i in range(len(hevents))],
-             'listener': hist.get('listener'),
+             'listener': hist.get('listener'), 'extra_links': hist.get('extra_links'), 'closes': hist.get('closes'),
+             'dials': hist.get('dials'), 'stalls': hist.get('stalls'), 'closes_done': shared.get('closes_done'),
+             'stall_intervals_ticks': shared.get('stall_log'),
              'outcomes': [{k: v for k, v in rec.items() if k in ('i', 'k', 't_call', 'seq_call', 't_done', 'seq_end',
                                                                    't_cancel', 'seq_cancel', 'outcome',
                                                                    'exc', 'exc_repr', 'exc_context', 'completed_by',
@@ -1433,7 +1669,7 @@ def run_case(params: dict) -> dict:
         if r['end']['type'] == 'C' and 't_cancel' not in rec:
             res['inconclusive'] = f'the cancellation of request {i} was never issued (generator/harness)'
             continue
-        j = judge(r, matchers, rec, hevents)
+        j = judge(r, matchers, rec, hevents, shared.get('stall_log') or ())
         rec['model'] = {'allowed_values': j['allowed_values'], 'end_allowed': j['end_allowed'],
                         't_end': j['t_end'] if j['t_end'] != float('inf') else None}
         same_instant = same_instant or j['same_instant']
@@ -1455,7 +1691,11 @@ def run_case(params: dict) -> dict:
                 runner.add_obs(res, 'judged_by_order_at_the_call_instant')
             if any(rec.get(q) is not None and e['seq'] < rec[q] < e['seq_done'] for q in ('seq_cancel', 'seq_end')):
                 runner.add_obs(res, 'requests_ended_while_handlers_suspended')
-        if j['deadline'] is not None and j['deadline'] == j['t_end']:
+        if j['deadline'] is not None and j['deadline'] == j['t_end_due']:
+            if j['t_end'] != j['t_end_due']:
+                runner.add_obs(res, 'deadline_inside_a_stall')
+                if any(hevents[x]['t'] == j['t_end'] for x in j['matching']):
+                    runner.add_obs(res, 'reply_and_deadline_inside_one_stall')
             hits = [x for x in j['matching'] if hevents[x]['t'] == j['deadline']]
             if hits:
                 runner.add_obs(res, 'deadline_at_arrival')
@@ -1542,10 +1782,12 @@ def run_case(params: dict) -> dict:
             elif not j['end_allowed']:
                 ignored(j['first_definite'])
         elif outcome == 'exc':
-            is_timeout = rec['exc'] == TIMEOUT_EXC[k] and j['deadline'] is not None and j['deadline'] == j['t_end']
+            is_timeout = rec['exc'] == TIMEOUT_EXC[k] and j['deadline'] is not None and j['deadline'] == j['t_end_due']
             if not is_timeout:
                 runner.violation(res, f"wrong-exception:{rec['exc']}:{k}", witness=witness(request=i, model=rec['model']))
-            if rec['t_done'] != j['t_end'] and is_timeout:
+            if is_timeout and not (rec['t_done'] == j['t_end'] or j['t_end_due'] <= rec['t_done'] <= max(
+                    [b for a, b in (shared.get('stall_log') or ()) if a <= rec['t_done'] <= b or a <= j['t_end_due'] <= b]
+                    + [j['t_end']])):
                 res['inconclusive'] = (f"timeout of request {i} ({k}) observed at tick {rec['t_done']}, model deadline "
                                        f"{j['t_end']}: timing assumption of the model broken")
             if not j['end_allowed'] and rec['t_done'] >= j['t_end']:
